@@ -6671,3 +6671,68 @@ def c13_engine_stops_only_unmapped(env):
 
 
 REGISTRY.setdefault("C13", []).append(c13_engine_stops_only_unmapped)
+
+
+# ---- C12: close() / close_with_error() report what the engine reports -----------------------------------------
+
+
+def c12_close_reports_the_engines_outcome(env):
+    o = Obligation("c12_close_reports_the_engines_outcome", "C12")
+    o.desc = "ConnectionHandle::close / close_with_error: whatever happens to the close request itself (the engine may already have stopped, e.g. because the peer closed first -- possibly with an error -- and the engine answered on its own), the call completes only with the result of on_close(), i.e. with the outcome the engine task left behind: a peer that closed with an error is reported as RemoteClosedWithError, never as a clean Ok(())"
+    fns = []
+    n = 0
+
+    def replay(m):
+        cmds = ["scn stop_reason close_err_then_close", "scn stop_reason close_err"]
+        return cmds, (lambda outs: any(js.get("panic") or not js["as_expected"] for js in outs))
+
+    pat_poll = r"ConnectionHandle<R>::on_close\(\)\} as (futures_util::|std::future::)?Future>::poll$"
+    for short, pat in (("close", r"^connection::<impl at [^>]*>::close::\{closure#0\}$"), ("close_with_error", r"^connection::<impl at [^>]*>::close_with_error::\{closure#0\}$")):
+        fn = env.fn(pat)
+        fns.append(fn.name)
+        states = _coroutine_states(fn)
+        def m_on_close_poll(ex_, st, callee, args, argvals, dty):
+            pl = mir.Agg("Poll")
+            pl["#d"] = z3.BitVec(f"on_close.poll#{ex_.ctx.n}", 64)
+            ex_.assumptions.append(z3.ULE(pl["#d"], 1))
+            rv = mir.Agg("Ready")
+            res_ = mir.Agg("Result")
+            res_["#d"] = z3.BitVec(f"on_close.result#{ex_.ctx.n}", 64)
+            ex_.assumptions.append(z3.ULE(res_["#d"], 1))
+            ex_.ctx.n += 1
+            rv[0] = res_
+            pl[("as", "Ready")] = rv
+            return pl
+
+        for k in states:
+            ex, paths = _run_from_state(env, fn, k, models=[(pat_poll, m_on_close_poll)], max_visits=2, stop=None)
+            for i, p in enumerate(paths):
+                if p.end != "return" or not isinstance(p.ret, mir.Agg) or "#d" not in p.ret:
+                    continue
+                H = ex.assumptions + p.cond + [p.ret["#d"] == 0]
+                s = z3.Solver()
+                s.add(*H)
+                if s.check() != z3.sat:
+                    continue
+                n += 1
+                polls = [c for c in p.calls if re.search(pat_poll, c[0])]
+                if not polls:
+                    o.prove(f"{short}:state{k}:path{i}:completes-only-through-on_close", H, z3.BoolVal(False), replay=replay)
+                    continue
+                res = polls[-1][3]
+                inner = res.get(("as", "Ready")) if isinstance(res, mir.Agg) else None
+                r_in = inner.get(0) if isinstance(inner, mir.Agg) else None
+                r_out = p.ret[("as", "Ready")].get(0) if isinstance(p.ret.get(("as", "Ready")), mir.Agg) else None
+                if not (isinstance(r_in, mir.Agg) and "#d" in r_in and isinstance(r_out, mir.Agg) and "#d" in r_out):
+                    o.prove(f"{short}:state{k}:path{i}:the-result-is-on_closes-result", H, z3.BoolVal(False), replay=replay)
+                    continue
+                o.prove(f"{short}:state{k}:path{i}:the-result-is-on_closes-result", H, r_out["#d"] == r_in["#d"], replay=replay)
+    o.functions = fns
+    o.bounds = ["both coroutines from every resume state through one poll; the control channel open or closed; on_close ready or pending"]
+    o.assumes = ["on_close yields the outcome the engine sent before it stopped (c14_connection_engine_publishes_the_stop_reason)"]
+    o.cover("completing paths", [z3.BoolVal(n > 1)])
+    return [o]
+
+
+REGISTRY.setdefault("C12", []).append(c12_close_reports_the_engines_outcome)
+REGISTRY.setdefault("C14", []).append(lambda env: [_retagged(x, "C14", "c14_close_reports_the_engines_outcome") for x in c12_close_reports_the_engines_outcome(env)])
